@@ -261,7 +261,10 @@ def prec_pair(rng):
 
 
 RAW_TEMPLATES = ["<<%s>>", "<<1, %s>>", "<<%s, 2>>", "[%s, 2]", "{%s: 1}", "{1: %s}", "{%s}", "(a: %s)", "{|a, b| (%s, 2)}", "{|@, @value| (1, 2), (1, %s)}",
-                 "{|@, @item| (0, %s)}", "$\"a${%s}b\"", "[1, , %s]", "(2\\[%s])", "{%s: 1, 2: 3}", "%s ++ \"x\"", "<<%s>> ++ <<1>>"]
+                 "{|@, @item| (0, %s)}", "$\"a${%s}b\"", "[1, , %s]", "(2\\[%s])", "{%s: 1, 2: 3}", "%s ++ \"x\"", "<<%s>> ++ <<1>>",
+                 # spelled-out members with @ written second (folded at compile time when every cell is a literal)
+                 "{(@char: %s, @: 0)}", "{(@: 0, @char: %s)}", "{(@item: %s, @: 1)}", "{(@value: %s, @: 1)}", "(@char: %s, @: 0)", "(@item: %s, @: 0)",
+                 "{(@char: 65, @: %s)}", "{(@item: 7, @: %s)}", "{(@value: 2, @: %s)}", "{(@byte: %s, @: 0)}", "{(@byte: 7, @: %s)}"]
 RAW_CELLS = ["1", "255", "256", "0", "-1", "0.5", "\"a\"", "\"\u00e9\"", "\"\u00ff\"", "\"\u0080\"", "\"\u20ac\"", "\"\"", "\"ab\"", "(b: 1)", "[1]", "<<1>>", "'x'"]
 
 
@@ -274,8 +277,26 @@ def raw_fold_pair(rng):
     return "let-bound-cell-in-literal-text", "(%s)" % (t % c), "(%s)" % rewritten
 
 
+def logic_literal_pair(rng):
+    """&& / || with a literal operand against the same operand parenthesised or let-bound (literal folding must not change which operand is returned, nor whether the other one is evaluated)"""
+    lefts = ["0", "()", "{}", "\"\"", "1", "(a: 1)", "{1}", "(1).nope", "[]", "false", "true"]
+    lits = ["false", "0", "{}", "()", "true", "1", "\"\"", "[]", "{1}"]
+    l, f = rng.choice(lefts), rng.choice(lits)
+    op = rng.choice(["&&", "||"])
+    side = rng.random() < 0.7
+    orig = "(%s %s %s)" % ((l, op, f) if side else (f, op, l))
+    k = rng.randrange(3)
+    if k == 0:
+        rew = "(%s %s (%s))" % (l, op, f) if side else "((%s) %s %s)" % (f, op, l)
+    elif k == 1:
+        rew = "(let f_ = %s; %s)" % (f, "(%s %s f_)" % (l, op) if side else "(f_ %s %s)" % (op, l))
+    else:
+        rew = "(%s -> \\f_ %s)" % (f, "(%s %s f_)" % (l, op) if side else "(f_ %s %s)" % (op, l))
+    return "logic-literal-operand", orig, rew
+
+
 def cond_default_pair(rng, e):
-    """cond with the default arm first or in the middle: arms after it are never evaluated"""
+    """&& / || with a literal operand against the parenthesised or let-bound operand, cond with the default arm first or in the middle: arms after it are never evaluated"""
     bad = "(1).nope"
     src = X.src(e)
     k = rng.randrange(3)
@@ -320,6 +341,9 @@ def main(tier, seed, replay=None):
         for _ in range(120 if tier == "quick" else 1500):
             kind, s1, s2 = raw_fold_pair(rng)
             pairs.append((kind, s1, s2, None, None))
+        for _ in range(100 if tier == "quick" else 1200):
+            kind, s1, s2 = logic_literal_pair(rng)
+            pairs.append((kind, s1, s2, None, None))
         progs = [p for p in pairs if p[3] is not None]
         for _ in range(40 if tier == "quick" else 400):
             kind, s1, s2 = cond_default_pair(rng, rng.choice(progs)[3])
@@ -353,7 +377,7 @@ def main(tier, seed, replay=None):
     evalcheck.judge(run, mcases, mouts, mcodes, mfails, "rewritten program vs the reference semantics", value_codes=(1, 2, 3), corr_codes=(4, 5, 6), skip_regions=True)
     step = max(1, len(pairs) // 6)
     run.cov.update({"evaluations": len(reqs) + len(mcases), "distinct_nontrivial": agree_val,
-                    "rule": "programs from the C01/C04/C05/C09 generators, each rewritten at a random position by one documented equivalence: let-introduction of a closed sub-expression (`let t = s; e[t/s]`), the same as `s -> \\\\t e` and `(\\\\t e)(s)`, sugar literal -> spelled-out set of tuples, implicit \\\\. binder -> explicit \\\\z, a failing operand hidden behind &&, || or cond, redundant parentheses, comments and whitespace; plus two dedicated streams: a sugar literal with constant cells (folded at compile time) against the same literal with one or two cells bound by let / -> / call (sets, arrays with holes and offsets, dicts, tuples, relation literals incl. the headings |@,@value|, |@,@item|, |@,x| with repeated keys, nested), literal forms at text level (byte arrays with string items, templates, offsets, dict/relation sugar) with a constant cell incl. non-ASCII strings against the let / -> / call form, cond with the default arm first or in the middle followed by failing or true conditions, and an unparenthesised arithmetic chain of 3-5 operands over + - * / % ^ (literals and let-bound names) against the grouping implied by the documented precedence and right-associative ^; original and rewritten source both evaluated by syntax.EvaluateExpr: equal canonical values or both fail; non-trivial = pairs where both evaluate to equal values",
+                    "rule": "programs from the C01/C04/C05/C09 generators, each rewritten at a random position by one documented equivalence: let-introduction of a closed sub-expression (`let t = s; e[t/s]`), the same as `s -> \\\\t e` and `(\\\\t e)(s)`, sugar literal -> spelled-out set of tuples, implicit \\\\. binder -> explicit \\\\z, a failing operand hidden behind &&, || or cond, redundant parentheses, comments and whitespace; plus two dedicated streams: a sugar literal with constant cells (folded at compile time) against the same literal with one or two cells bound by let / -> / call (sets, arrays with holes and offsets, dicts, tuples, relation literals incl. the headings |@,@value|, |@,@item|, |@,x| with repeated keys, nested), literal forms at text level (byte arrays with string items, templates, offsets, dict/relation sugar) with a constant cell incl. non-ASCII strings against the let / -> / call form, && / || with a literal operand against the parenthesised or let-bound operand, cond with the default arm first or in the middle followed by failing or true conditions, and an unparenthesised arithmetic chain of 3-5 operands over + - * / % ^ (literals and let-bound names) against the grouping implied by the documented precedence and right-associative ^; original and rewritten source both evaluated by syntax.EvaluateExpr: equal canonical values or both fail; non-trivial = pairs where both evaluate to equal values",
                     "samples": [{"kind": p[0], "original": p[1][:160], "rewritten": p[2][:220]} for p in pairs[::step]][:6],
                     "rewrite_histogram": kinds, "pairs": len(pairs), "exhaustive": False})
     run.assumptions = ["the wbnf parser and syntax/compile.go are exercised, not modelled"]
